@@ -55,7 +55,7 @@ Tol(q) == IF BitExact THEN QMul(<<WFromInt(2), WPow10(12)>>, QMax(QOne, QAbs(FA)
 
 RelOK ==
     LET e == Expect(Cfg.k) a == ObsA b == ObsB IN
-    IF e = "none" \/ Degenerate THEN TRUE
+    IF e = "none" \/ Degenerate \/ (HasField(Scope, "invonly") /\ e # "inv") THEN TRUE
     ELSE IF ~OIsSome(a) \/ ~OIsSome(b) THEN (Tally("rel.nonvalue") /\ a[1] = b[1])
     ELSE /\ Tally("rel." \o e)
          /\ CASE e = "inv"    -> IF BitExact THEN OSameValue(a, b) ELSE QClose(OQ(b), OQ(a), Tol(OQ(a)))
